@@ -293,12 +293,13 @@ def parse_replies(raw: bytes):
 
 
 def run_sequence(args):
-    seq, cuts, version = args
+    seq, cuts, version = args[:3]
+    inbound = args[3] if len(args) > 3 else None   # (remote address, sends that find the socket buffer full)
     viols = []
     lines = [l for c in seq for l in (CMD[c][1] if version == 6 else CMD[c][2]).split('\n')]
     data = ('\n'.join(lines) + '\n').encode()
     seen = []
-    with World(CFG, env={'api.version': version}) as wd:
+    with World(CFG, env={'api.version': version}, listen=inbound is not None) as wd:
         wd.settle()
         orig = wd.reactor.api.process
 
@@ -308,6 +309,11 @@ def run_sequence(args):
 
         wd.reactor.api.process = spy
         before = rib_state(wd)
+        if inbound is not None:
+            # part (D): a connection ExaBGP refuses arrives with the commands; the NOTIFICATION it is refused with shares the scheduler of the
+            # command callbacks, and the peer takes it only after so many attempts
+            sock = wd.incoming(remote=(inbound[0], 40000))
+            sock.send_blocked = inbound[1]
         bounds = [0] + list(cuts) + [len(data)]
         for a, b in zip(bounds, bounds[1:]):
             wd.api_write(data[a:b])
@@ -587,11 +593,22 @@ def plan(tier):
     return jobs
 
 
+# part (D): 12 one-line commands written at once while a refused inbound connection is being answered
+BUSY = ('annA', 'annB1', 'annN2', 'ann6', 'annA2', 'nested', 'unknown', 'attrs2', 'split', 'wdrA', 'badval', 'version')
+
+
+def inbound_jobs(tier):
+    top = 330 if tier == 'quick' else 660
+    jobs = [(BUSY, (), 6, ('127.0.0.77', k)) for k in range(top)]            # no neighbor configured for that address
+    jobs += [(BUSY, (), 4, ('127.0.0.77', k)) for k in range(0, top if tier != 'quick' else 110)]
+    return jobs
+
+
 def run(ctx: core.Ctx) -> None:
-    jobs = plan(ctx.tier)
+    jobs = plan(ctx.tier) + inbound_jobs(ctx.tier)
     sels = selector_cases(ctx.tier)
     ctx.rule = (f'(A) every sequence of <= 2 commands (quick: 1 in 9 of the length-3 ones, thorough: all) over {len(COMMANDS)} commands (announce/withdraw to all or one peer, IPv6, out-of-range value, bad mask, missing next hop, unknown verb, no matching peer, eor, flush, ping), API v6 and v4 syntax; '
-                'every single cut (thorough: every pair of cuts) and byte-by-byte delivery for 7 streams; (C) two helper processes listed by different neighbor sets: every sequence of <= 2 (process, command) items over 12 commands and of 3 over 8 (thorough: 12), each process must read exactly the replies to its own commands and only the neighbors listing the process may change; (B) every selector: 7 address forms (one a truncated address, one neighbor whose every value extends those of another neighbor) x every subset of {local-as, peer-as, router-id} x 4 values each (one only the beginning of values in use), plain and bracket form, and bracket lists of two; '
+                'every single cut (thorough: every pair of cuts) and byte-by-byte delivery for 7 streams; (C) two helper processes listed by different neighbor sets: every sequence of <= 2 (process, command) items over 12 commands and of 3 over 8 (thorough: 12), each process must read exactly the replies to its own commands and only the neighbors listing the process may change; (D) 12 commands written at once while an inbound connection nobody is configured for is refused with a NOTIFICATION scheduled among the command callbacks, the socket taking it after k attempts, every k < 330 (thorough 660); (B) every selector: 7 address forms (one a truncated address, one neighbor whose every value extends those of another neighbor) x every subset of {local-as, peer-as, router-id} x 4 values each (one only the beginning of values in use), plain and bracket form, and bracket lists of two; '
                 'non-trivial = distinct (reply sequence, final RIBs) outcome')
     ctx.assumptions += ['reference model: one terminal reply per command in order; refused commands change nothing; a selector matches a neighbor iff its address matches (or *) and every term equals the neighbor setting']
     pool = mp.Pool(min(16, os.cpu_count() or 1))
@@ -603,7 +620,9 @@ def run(ctx: core.Ctx) -> None:
             ctx.count('transitions', len(job[0]) + len(job[1]))
             ctx.add_to_set('outcomes', outcome)
             for sig, what in viols:
-                ctx.violation(sig, f'[API v{job[2]}] {what}', {'kind': 'seq', 'seq': list(job[0]), 'cuts': list(job[1]), 'version': job[2]})
+                if len(job) > 3:
+                    what += f'  [while an inbound connection from {job[3][0]} is refused, its NOTIFICATION accepted by the socket after {job[3][1]} attempts]'
+                ctx.violation(sig, f'[API v{job[2]}] {what}', {'kind': 'seq', 'seq': list(job[0]), 'cuts': list(job[1]), 'version': job[2], 'inbound': list(job[3]) if len(job) > 3 else None})
         mjobs = multi_jobs(ctx.tier)
         mresults = pool.map(run_multi, mjobs, chunksize=8)
         core.replay_check(ctx, pool, run_multi, mjobs, mresults, stride=32)
@@ -636,7 +655,7 @@ def replay(case):
         viols, o = run_multi(tuple(tuple(x) for x in case['items']))
         return [{'signature': s, 'what': wh} for s, wh in viols]
     if case['kind'] == 'seq':
-        viols, o = run_sequence((tuple(case['seq']), tuple(case['cuts']), case['version']))
+        viols, o = run_sequence((tuple(case['seq']), tuple(case['cuts']), case['version']) + ((tuple(case['inbound']),) if case.get('inbound') else ()))
     else:
         viols, o = run_selector((case['form'], case['prefix'], frozenset(case['expected'])))
     return [{'signature': s, 'what': wh} for s, wh in viols]
